@@ -1364,6 +1364,7 @@ class Parallel(Logger):
         # Internal variables
         self._backend = backend
         self._running = False
+        self._calling = False
         self._managed_backend = False
         self._id = uuid4().hex
         self._call_ref = None
@@ -1994,6 +1995,20 @@ class Parallel(Logger):
         """Main function to dispatch parallel tasks."""
 
         self._reset_run_tracking()
+        try:
+            return self._call(iterable)
+        except BaseException:
+            if self._running:
+                # The call failed before the output generator was started
+                # (e.g. the backend could not be initialized or the input
+                # could not be iterated): nothing else would mark this
+                # instance as available again.
+                self._running = False
+                if self._calling:
+                    self._terminate_and_reset()
+            raise
+
+    def _call(self, iterable):
         self.n_tasks = len(iterable) if hasattr(iterable, "__len__") else None
         self._start_time = time.time()
 
